@@ -178,6 +178,23 @@ func init() {
 		e.readerFailed(st, args[0], tb.Not(ok))
 		k(st, Val{Elems: []Val{scalar(n), Val{T: []*Term{tb.Ite(ok, tb.Int(0), errv.ifTag()), tb.Ite(ok, tb.Int(0), errv.ifVal())}}}})
 	}
+	// io.ReadAtLeast(r, buf, min): on success between min and len(buf) bytes were consumed (it keeps reading until at least min);
+	// min > len(buf) is an error without reading
+	libSpecs["io.ReadAtLeast"] = func(e *Engine, st *State, fn *ssa.Function, args []Val, pos token.Pos, k Kont) {
+		tb := e.tb
+		e.oblige(st, "nil", "", pos, tb.Neq(args[0].ifTag(), tb.Int(0)), "io.ReadAtLeast on nil reader")
+		buf := e.materialiseIfSlice(st, args[1], fn.Signature.Params().At(1).Type())
+		min := args[2].T[0]
+		ok := tb.Fresh("ral_ok", SBool)
+		n := tb.Fresh("ral_n", SInt)
+		errv := e.newError(st, "ral")
+		e.assume(st, tb.And(tb.Le(tb.Int(0), n), tb.Le(n, buf.slLen()), tb.Eq(ok, tb.And(tb.Ge(n, min), tb.Le(min, buf.slLen())))))
+		e.assume(st, tb.Implies(tb.Gt(min, buf.slLen()), tb.Eq(n, tb.Int(0))))
+		e.fillFromStream(st, args[0], buf, n, false)
+		e.advance(st, args[0], n)
+		e.readerFailed(st, args[0], tb.Not(ok))
+		k(st, Val{Elems: []Val{scalar(n), Val{T: []*Term{tb.Ite(ok, tb.Int(0), errv.ifTag()), tb.Ite(ok, tb.Int(0), errv.ifVal())}}}})
+	}
 	libSpecs["encoding/binary.Read"] = func(e *Engine, st *State, fn *ssa.Function, args []Val, pos token.Pos, k Kont) {
 		tb := e.tb
 		e.oblige(st, "nil", "", pos, tb.Neq(args[0].ifTag(), tb.Int(0)), "binary.Read on nil reader")
